@@ -1862,6 +1862,14 @@ class MacroExpander:
                         self.parser_stack[-1].pos -= 1
                         self.replace_tok(ctok)
                         continue
+                    elif self.parser_stack[-1].eol():
+                        # The "(" belongs to an enclosing token stream. Leave
+                        # the name in place: it is rescanned together with the
+                        # tokens that follow once this stream has been spliced
+                        # into the enclosing one.
+                        self.parser_stack[-1].pos -= 1
+                        self.replace_tok(ctok)
+                        continue
                     else:
                         _ = self.consume_tok()
                     args = []
